@@ -1,45 +1,44 @@
 /-
   C17 — the server engine applies updates atomically, in order, and never wedges.
 
-  Property theorems only (model: Arrai/C17/Model.lean, helper lemmas: Arrai/C17/Lemmas.lean).
-  They quantify over every type `S` of database values, every initial value, every finite list of
-  messages (= every interleaving of concurrent clients, see Model.lean), every expression
-  (`S → Option S`), every callback script and every enumeration order of the watcher map.
+  Property theorems only (model: Arrai/C17/Model.lean and Arrai/C17/Conc.lean, helper lemmas:
+  Arrai/C17/Lemmas.lean).  Parts 1–5 quantify over every type `S` of database values, every initial
+  value, every finite history (list of messages accepted by the loop), every expression
+  (`S → Option S`), every callback script — including callbacks that fail, panic, or have their own
+  cancel function called while they run — and every enumeration order of the watcher map.  Part 7
+  discharges the concurrency quantifier: every execution of any number of concurrent clients under
+  any schedule is such a history (an interleaving of the clients' call sequences), and what each
+  client gets back is a function of that history alone.
 
-  `Impl` is the repaired loop.  The hypothesis `noReenter h` ("no callback calls the cancel function
-  of its own observation") is the class of the open finding KF-engine-reentrant-cancel: for each
-  `_partial` result there is a `_full` statement without it and a `_full_false` witness.  `Old` is the loop before
-  the repair; part 6 machine-checks the two repaired defects on it.
+  `Impl` is the repaired loop.  `Prev` (before the re-entrant-cancel repair) and `Old` (before any
+  repair) are kept so that the defects stay machine-checked (part 6).
 -/
-import Arrai.C17.Lemmas
+import Arrai.C17.Conc
 
 namespace Arrai.C17.Theorems
 open Arrai.C17
 
 variable {S : Type}
 
-/-- the open finding's witness: the second invocation of observer 1's callback calls its own cancel -/
+/-- the second invocation of observer 1's callback calls its own cancel function -/
 def reentrant : List (Msg Nat) :=
   [.add (fun s => some s) [.ok, .reenter], .add (fun s => some s) [],
    .update (fun _ => some 1) [], .update (fun _ => some 2) []]
 
-/-- the same history with a well-behaved observer 1 -/
-def benign : List (Msg Nat) :=
-  [.add (fun s => some s) [], .add (fun s => some s) [],
-   .update (fun _ => some 1) [], .update (fun _ => some 2) []]
-
-/-- a history satisfying `noReenter` that exercises everything else: failing and state-dependent
-expressions, callbacks that return an error or panic, cancel twice, cancel of an unknown id, hang-up -/
+/-- a history that exercises everything: failing and state-dependent expressions, callbacks that
+return an error, panic or cancel themselves, cancel twice, cancel of an unknown id, hang-up -/
 def eventful : List (Msg Nat) :=
   [.add (fun _ => none) [], .update (fun s => some (s + 1)) [], .add (fun s => some s) [.ok, .err],
    .add (fun s => if s % 2 = 0 then some s else none) [.panic], .add (fun s => some (2 * s)) [],
+   .add (fun s => some s) [.ok, .reenter],
    .update (fun s => some (s + 1)) [1], .update (fun _ => none) [], .remove 4, .remove 4, .remove 9,
    .update (fun s => some (s + 1)) [], .hangup [], .add (fun s => some s) [], .update (fun s => some (s + 1)) []]
 
-/-- every hypothesis used below is satisfiable by a non-trivial history -/
-example : noReenter eventful = true ∧ Impl.replies (Impl.run 0 eventful) = [true, true, false, true, true]
+/-- the model on that history (sanity check of the definitions the theorems are about) -/
+example : Impl.replies (Impl.run 0 eventful) = [true, true, false, true, true]
     ∧ Impl.log (Impl.run 0 eventful) 2 = [.val 1, .val 2, .closed true]
-    ∧ Impl.log (Impl.run 0 eventful) 4 = [.val 2, .val 4, .closed false] := by decide
+    ∧ Impl.log (Impl.run 0 eventful) 4 = [.val 2, .val 4, .closed false]
+    ∧ Impl.log (Impl.run 0 eventful) 5 = [.val 1, .val 2, .closed false] := by decide
 
 /-! ### Part 0 — the model of Go's unspecified map iteration order -/
 
@@ -56,73 +55,40 @@ theorem every_enumeration_has_a_code {α : Type} (l l' : List α) (h : l'.Perm l
 theorem no_crash (g0 : S) (h : List (Msg S)) : (Impl.run g0 h).status ≠ .crashed :=
   Impl.runFrom_status h (Impl.init g0) (fun e => Impl.Status.noConfusion e)
 
-theorem no_wedge_partial (g0 : S) (h : List (Msg S)) (hn : noReenter h = true) :
-    (Impl.run g0 h).status = .running :=
-  (Impl.run_refines g0 h hn).1.run
-
-def no_wedge_full : Prop := ∀ (g0 : Nat) (h : List (Msg Nat)), (Impl.run g0 h).status = .running
-
-theorem no_wedge_full_false : ¬ no_wedge_full := by
-  intro hf
-  have := hf 0 reentrant
-  revert this
-  decide
+/-- after every history the loop is back at its `select` -/
+theorem no_wedge (g0 : S) (h : List (Msg S)) : (Impl.run g0 h).status = .running :=
+  (Impl.run_refines g0 h).1.run
 
 /-! ### Part 2 — the loop refines the sequential specification -/
 
-theorem refines_partial (g0 : S) (h : List (Msg S)) (hn : noReenter h = true) :
-    abs (Impl.run g0 h) = Spec.run g0 h :=
-  (Impl.run_refines g0 h hn).2
+theorem refines (g0 : S) (h : List (Msg S)) : abs (Impl.run g0 h) = Spec.run g0 h :=
+  (Impl.run_refines g0 h).2
 
 /-- `Stop` closes exactly the observers that are still live -/
-theorem stop_refines_partial (g0 : S) (h : List (Msg S)) (ord : List Nat) (hn : noReenter h = true) :
+theorem stop_refines (g0 : S) (h : List (Msg S)) (ord : List Nat) :
     abs (Impl.stop (Impl.run g0 h) ord) = Spec.stop (Spec.run g0 h) := by
-  obtain ⟨hI, hr⟩ := Impl.run_refines g0 h hn
+  obtain ⟨hI, hr⟩ := Impl.run_refines g0 h
   rw [(Impl.stop_refines _ ord hI).2, hr]
-
-def refines_full : Prop := ∀ (g0 : Nat) (h : List (Msg Nat)), abs (Impl.run g0 h) = Spec.run g0 h
-
-theorem refines_full_false : ¬ refines_full := by
-  intro hf
-  have := congrArg Spec.State.replies (hf 0 reentrant)
-  revert this
-  decide
 
 /-! ### Part 3 — every update is answered, exactly once, before anything else happens; effects in
 acknowledgement order -/
 
-theorem every_update_answered_partial (g0 : S) (h1 : List (Msg S)) (e : S → Option S) (ord : List Nat)
-    (hn : noReenter h1 = true) :
+theorem every_update_answered (g0 : S) (h1 : List (Msg S)) (e : S → Option S) (ord : List Nat) :
     ∃ evs, (Impl.run g0 (h1 ++ [.update e ord])).trace
         = (Impl.run g0 h1).trace ++ Impl.Out.reply (e (Impl.run g0 h1).global).isSome :: evs
       ∧ evs.filterMap Impl.replyOf = [] := by
-  have hr := no_wedge_partial g0 h1 hn
+  have hr := no_wedge g0 h1
   have : Impl.run g0 (h1 ++ [.update e ord]) = Impl.step (Impl.run g0 h1) (.update e ord) := by
     simp [Impl.run, Impl.runFrom, List.foldl_append]
   rw [this]
   exact Impl.step_update_answered _ e ord hr
 
-def every_update_answered_full : Prop :=
-  ∀ (g0 : Nat) (h1 : List (Msg Nat)) (e : Nat → Option Nat) (ord : List Nat),
-    ∃ evs, (Impl.run g0 (h1 ++ [.update e ord])).trace
-        = (Impl.run g0 h1).trace ++ Impl.Out.reply (e (Impl.run g0 h1).global).isSome :: evs
-      ∧ evs.filterMap Impl.replyOf = []
-
-theorem every_update_answered_full_false : ¬ every_update_answered_full := by
-  intro hf
-  obtain ⟨evs, h, _⟩ := hf 0 (reentrant.take 3) (fun _ => some 2) []
-  have hl := congrArg List.length h
-  have h1 : (Impl.run 0 (reentrant.take 3 ++ [Msg.update (fun _ => some 2) []])).trace.length
-      = (Impl.run 0 (reentrant.take 3)).trace.length := by decide
-  rw [h1, List.length_append, List.length_cons] at hl
-  omega
-
 /-- the database is the result of applying the accepted updates one at a time in the order of the
 rendezvous (= the order of the acknowledgements), and the acknowledgements are those of that sequential run -/
-theorem order_partial (g0 : S) (h : List (Msg S)) (hn : noReenter h = true) :
+theorem order (g0 : S) (h : List (Msg S)) :
     (Impl.run g0 h).global = Spec.dbAfter g0 (Spec.updates h)
     ∧ Impl.replies (Impl.run g0 h) = Spec.acks g0 (Spec.updates h) := by
-  have hr := refines_partial g0 h hn
+  have hr := refines g0 h
   obtain ⟨h1, h2⟩ := Spec.runFrom_db_replies h (Spec.init g0)
   constructor
   · have := congrArg Spec.State.db hr
@@ -130,20 +96,10 @@ theorem order_partial (g0 : S) (h : List (Msg S)) (hn : noReenter h = true) :
   · have := congrArg Spec.State.replies hr
     exact this.trans (by rw [Spec.run, h2]; rfl)
 
-def order_full : Prop := ∀ (g0 : Nat) (h : List (Msg Nat)),
-  (Impl.run g0 h).global = Spec.dbAfter g0 (Spec.updates h)
-  ∧ Impl.replies (Impl.run g0 h) = Spec.acks g0 (Spec.updates h)
-
-theorem order_full_false : ¬ order_full := by
-  intro hf
-  have := (hf 0 reentrant).1
-  revert this
-  decide
-
 /-- exactly one reply per `Update`, none for anything else -/
-theorem one_reply_per_update_partial (g0 : S) (h : List (Msg S)) (hn : noReenter h = true) :
+theorem one_reply_per_update (g0 : S) (h : List (Msg S)) :
     (Impl.replies (Impl.run g0 h)).length = (Spec.updates h).length := by
-  rw [(order_partial g0 h hn).2]
+  rw [(order g0 h).2]
   generalize Spec.updates h = us
   induction us generalizing g0 with
   | nil => rfl
@@ -153,51 +109,29 @@ theorem one_reply_per_update_partial (g0 : S) (h : List (Msg S)) (hn : noReenter
     | none => simp [ih g0]
     | some v => simp [ih v]
 
-def one_reply_per_update_full : Prop := ∀ (g0 : Nat) (h : List (Msg Nat)),
-  (Impl.replies (Impl.run g0 h)).length = (Spec.updates h).length
-
-theorem one_reply_per_update_full_false : ¬ one_reply_per_update_full := by
-  intro hf
-  have := hf 0 reentrant
-  revert this
-  decide
-
 /-! ### Part 4 — delivery -/
 
 /-- the observer subscribed by `add e c` after `h1` is told the value of `e` on the state at its
 subscription and on every state installed afterwards, in order, until its expression fails, its
-callback fails, it is cancelled or the engine hangs up; and nothing after that -/
-theorem delivery_partial (g0 : S) (h1 : List (Msg S)) (e : S → Option S) (c : List Act) (h2 : List (Msg S))
-    (hn : noReenter (h1 ++ .add e c :: h2) = true) :
+callback fails, it is cancelled (from outside or from inside its callback) or the engine hangs up;
+and nothing after that -/
+theorem delivery (g0 : S) (h1 : List (Msg S)) (e : S → Option S) (c : List Act) (h2 : List (Msg S)) :
     Impl.log (Impl.run g0 (h1 ++ .add e c :: h2)) ((Impl.run g0 h1).lastID + 1)
       = Spec.expectedFrom ((Impl.run g0 h1).lastID + 1) e c (Impl.run g0 h1).global h2 := by
-  obtain ⟨hI, hr⟩ := Impl.run_refines g0 _ hn
-  have hn1 := ((noReenter_append h1 _).1 hn).1
-  have hr1 := refines_partial g0 h1 hn1
+  obtain ⟨hI, hr⟩ := Impl.run_refines g0 (h1 ++ .add e c :: h2)
+  have hr1 := refines g0 h1
   have hc : (Impl.run g0 h1).lastID = (Spec.run g0 h1).count := congrArg Spec.State.count hr1
   have hd : (Impl.run g0 h1).global = (Spec.run g0 h1).db := congrArg Spec.State.db hr1
   rw [Impl.log_abs _ hI, hr, hc, hd]
   exact Spec.delivery g0 h1 e c h2
 
-def delivery_full : Prop :=
-  ∀ (g0 : Nat) (h1 : List (Msg Nat)) (e : Nat → Option Nat) (c : List Act) (h2 : List (Msg Nat)),
-    Impl.log (Impl.run g0 (h1 ++ .add e c :: h2)) ((Impl.run g0 h1).lastID + 1)
-      = Spec.expectedFrom ((Impl.run g0 h1).lastID + 1) e c (Impl.run g0 h1).global h2
-
-theorem delivery_full_false : ¬ delivery_full := by
-  intro hf
-  have := hf 0 (reentrant.take 1) (fun s => some s) [] (reentrant.drop 2)
-  revert this
-  decide
-
 /-- in particular: an observer whose expression `f` and callback never fail and that is not cancelled is
 told `f` of the state at subscription and of every state installed afterwards, in order -/
-theorem delivery_live_partial (g0 : S) (h1 : List (Msg S)) (f : S → S) (h2 : List (Msg S))
-    (hn : noReenter (h1 ++ .add (fun s => some (f s)) [] :: h2) = true)
+theorem delivery_live (g0 : S) (h1 : List (Msg S)) (f : S → S) (h2 : List (Msg S))
     (hq : h2.all (Spec.quiet ((Impl.run g0 h1).lastID + 1)) = true) :
     Impl.log (Impl.run g0 (h1 ++ .add (fun s => some (f s)) [] :: h2)) ((Impl.run g0 h1).lastID + 1)
       = ((Impl.run g0 h1).global :: Spec.installed (Impl.run g0 h1).global h2).map (fun s => Ev.val (f s)) := by
-  rw [delivery_partial g0 h1 _ [] h2 hn]
+  rw [delivery g0 h1 _ [] h2]
   simp only [Spec.expectedFrom, List.headD_nil, List.tail_nil, List.map_cons]
   rw [Spec.expected_live _ f h2 _ hq]
 
@@ -205,14 +139,13 @@ theorem delivery_live_partial (g0 : S) (h1 : List (Msg S)) (f : S → S) (h2 : L
 
 /-- what an observer is told, and every reply, depend only on that observer's view of the history: the
 updates, the hang-ups, its own subscription and its own cancellations.  Other observers — whatever their
-expressions and callbacks do, however often they are cancelled, with known or unknown ids — and the
-enumeration orders of the map change nothing. -/
-theorem isolation_partial (g0 : S) (j : Nat) (h h' : List (Msg S))
-    (hn : noReenter h = true) (hn' : noReenter h' = true) (hv : Spec.view j 0 h = Spec.view j 0 h') :
+expressions and callbacks do, however often and from wherever they are cancelled, with known or unknown
+ids — and the enumeration orders of the map change nothing. -/
+theorem isolation (g0 : S) (j : Nat) (h h' : List (Msg S)) (hv : Spec.view j 0 h = Spec.view j 0 h') :
     Impl.log (Impl.run g0 h) j = Impl.log (Impl.run g0 h') j
     ∧ Impl.replies (Impl.run g0 h) = Impl.replies (Impl.run g0 h') := by
-  obtain ⟨hI, hr⟩ := Impl.run_refines g0 h hn
-  obtain ⟨hI', hr'⟩ := Impl.run_refines g0 h' hn'
+  obtain ⟨hI, hr⟩ := Impl.run_refines g0 h
+  obtain ⟨hI', hr'⟩ := Impl.run_refines g0 h'
   obtain ⟨i1, i2⟩ := Spec.isolation g0 j h h' hv
   constructor
   · rw [Impl.log_abs _ hI, Impl.log_abs _ hI', hr, hr', i1]
@@ -220,29 +153,17 @@ theorem isolation_partial (g0 : S) (j : Nat) (h h' : List (Msg S))
     have b := congrArg Spec.State.replies hr'
     exact a.trans (i2.trans b.symm)
 
-def isolation_full : Prop := ∀ (g0 : Nat) (j : Nat) (h h' : List (Msg Nat)),
-  Spec.view j 0 h = Spec.view j 0 h' →
-    Impl.log (Impl.run g0 h) j = Impl.log (Impl.run g0 h') j
-    ∧ Impl.replies (Impl.run g0 h) = Impl.replies (Impl.run g0 h')
-
-theorem isolation_full_false : ¬ isolation_full := by
-  intro hf
-  have := (hf 0 2 reentrant benign rfl).2
-  revert this
-  decide
-
 /-- the order in which Go enumerates the watcher map is invisible to every observer and in every reply -/
-theorem enumeration_order_irrelevant_partial (g0 : S) (j : Nat) (h : List (Msg S)) (f : List Nat → List Nat)
-    (hn : noReenter h = true) :
+theorem enumeration_order_irrelevant (g0 : S) (j : Nat) (h : List (Msg S)) (f : List Nat → List Nat) :
     Impl.log (Impl.run g0 (h.map (Spec.reorder f))) j = Impl.log (Impl.run g0 h) j
     ∧ Impl.replies (Impl.run g0 (h.map (Spec.reorder f))) = Impl.replies (Impl.run g0 h) :=
-  isolation_partial g0 j _ h (by rw [Spec.noReenter_reorder]; exact hn) hn (Spec.view_reorder f j h 0)
+  isolation g0 j _ h (Spec.view_reorder f j h 0)
 
 /-- onclose is called at most once per observer, and nothing is sent to an observer after it -/
-theorem closed_at_most_once_partial (g0 : S) (h : List (Msg S)) (hn : noReenter h = true) (j : Nat) :
+theorem closed_at_most_once (g0 : S) (h : List (Msg S)) (j : Nat) :
     Spec.noClose (Impl.log (Impl.run g0 h) j)
     ∨ ∃ l0 b, Impl.log (Impl.run g0 h) j = l0 ++ [Ev.closed b] ∧ Spec.noClose l0 := by
-  obtain ⟨hI, hr⟩ := Impl.run_refines g0 h hn
+  obtain ⟨hI, hr⟩ := Impl.run_refines g0 h
   rw [Impl.log_abs _ hI, hr]
   have hw := Spec.run_wf g0 h j
   cases ho : (Spec.run g0 h).obs j with
@@ -251,10 +172,10 @@ theorem closed_at_most_once_partial (g0 : S) (h : List (Msg S)) (hn : noReenter 
   | dead l => rw [ho] at hw; right; exact hw
 
 /-- after `Stop`, every observer that ever subscribed has been closed exactly once, as the last thing it heard -/
-theorem every_observer_closed_exactly_once_partial (g0 : S) (h : List (Msg S)) (ord : List Nat)
-    (hn : noReenter h = true) (j : Nat) (hj : 1 ≤ j ∧ j ≤ (Impl.run g0 h).lastID) :
+theorem every_observer_closed_exactly_once (g0 : S) (h : List (Msg S)) (ord : List Nat)
+    (j : Nat) (hj : 1 ≤ j ∧ j ≤ (Impl.run g0 h).lastID) :
     ∃ l0 b, Impl.log (Impl.stop (Impl.run g0 h) ord) j = l0 ++ [Ev.closed b] ∧ Spec.noClose l0 := by
-  obtain ⟨hI, hr⟩ := Impl.run_refines g0 h hn
+  obtain ⟨hI, hr⟩ := Impl.run_refines g0 h
   obtain ⟨hI2, hr2⟩ := Impl.stop_refines _ ord hI
   rw [Impl.log_abs _ hI2, hr2]
   show ∃ l0 b, (((abs (Impl.run g0 h)).obs j).close).log = _ ∧ _
@@ -270,7 +191,7 @@ theorem every_observer_closed_exactly_once_partial (g0 : S) (h : List (Msg S)) (
     simp only [hj, and_self, ↓reduceIte] at hw ⊢
     exact hw
 
-/-! ### Part 6 — the loop before the repair (`Old`): the two defects, machine-checked -/
+/-! ### Part 6 — the loop before the repairs: the defects, machine-checked -/
 
 /-- an observer whose expression fails to evaluate; then an `Update` -/
 def failingObserver : List (Msg Nat) := [.add (fun _ => none) [], .update (fun _ => some 1) []]
@@ -278,28 +199,94 @@ def failingObserver : List (Msg Nat) := [.add (fun _ => none) [], .update (fun _
 /-- `cancel(); cancel()`; then an `Update` -/
 def doubleCancel : List (Msg Nat) := [.add (fun s => some s) [], .remove 1, .remove 1, .update (fun _ => some 1) []]
 
-/-- before the repair the loop deadlocked (blocked in its own `w.cancel()`): the observer is never told
+/-- before any repair the loop deadlocked (blocked in its own `w.cancel()`): the observer is never told
 why, and the `Update` that follows is never answered -/
 theorem no_wedge_false_before_repair :
     (Old.run 0 failingObserver).status = .wedged ∧ Impl.replies (Old.run 0 failingObserver) = []
     ∧ Impl.log (Old.run 0 failingObserver) 1 = [] := by decide
 
-/-- before the repair a second cancel dereferenced a nil watcher: the process died -/
+/-- before any repair a second cancel dereferenced a nil watcher: the process died -/
 theorem no_crash_false_before_repair :
     (Old.run 0 doubleCancel).status = .crashed ∧ Impl.replies (Old.run 0 doubleCancel) = [] := by decide
 
-/-- before the repair an `onupdate` error deadlocked the loop as well, and an observer whose callback
+/-- before any repair an `onupdate` error deadlocked the loop as well, and an observer whose callback
 panicked was closed but stayed registered: it was notified again and closed a second time -/
 theorem old_callback_failures :
     (Old.run 0 ([.add (fun s => some s) [.err]] : List (Msg Nat))).status = .wedged
     ∧ Impl.log (Old.run 0 ([.add (fun s => some s) [.panic], .update (fun _ => some 1) [], .remove 1] : List (Msg Nat))) 1
         = [.val 0, .closed true, .val 1, .closed false] := by decide
 
+/-- before the re-entrant-cancel repair (finding KF-engine-reentrant-cancel) a callback that called its own
+cancel function blocked the loop in `e.removeWatcher <- id`: the observer is never closed, the other
+observer misses the state installed by the same update, and the next `Update` is never answered -/
+theorem no_wedge_false_before_reentrant_repair :
+    (Prev.run 0 reentrant).status = .wedged
+    ∧ Impl.replies (Prev.run 0 reentrant) = [true]
+    ∧ Impl.log (Prev.run 0 reentrant) 1 = [.val 0, .val 1]
+    ∧ Impl.log (Prev.run 0 reentrant) 2 = [.val 0] := by decide
+
 /-- the repaired loop on the same histories -/
 theorem repaired_on_witnesses :
     (Impl.run 0 failingObserver).status = .running ∧ Impl.replies (Impl.run 0 failingObserver) = [true]
     ∧ Impl.log (Impl.run 0 failingObserver) 1 = [.closed true]
     ∧ (Impl.run 0 doubleCancel).status = .running ∧ Impl.replies (Impl.run 0 doubleCancel) = [true]
-    ∧ Impl.log (Impl.run 0 doubleCancel) 1 = [.val 0, .closed false] := by decide
+    ∧ Impl.log (Impl.run 0 doubleCancel) 1 = [.val 0, .closed false]
+    ∧ (Impl.run 0 reentrant).status = .running ∧ Impl.replies (Impl.run 0 reentrant) = [true, true]
+    ∧ Impl.log (Impl.run 0 reentrant) 1 = [.val 0, .val 1, .closed false]
+    ∧ Impl.log (Impl.run 0 reentrant) 2 = [.val 0, .val 1, .val 2] := by decide
+
+/-! ### Part 7 — all interleavings of concurrent clients
+
+`Conc.run g0 progs evs`: clients `0, 1, …` run the call sequences `progs 0, progs 1, …` concurrently;
+`evs` is the schedule (`call c`: client c makes its next call and blocks in its send; `accept c`: the
+loop, at its `select`, takes the message of blocked client c and runs the arm).  Assumed about Go:
+unbuffered channels (a call takes effect at one rendezvous; the arm, including the reply to `Update`,
+runs to completion on the loop's single goroutine before the next message is accepted). -/
+
+/-- every execution of concurrent clients under every schedule is the run of one history -/
+theorem interleaving_is_history (g0 : S) (progs : Nat → List (Conc.COp S)) (evs : List Conc.Event) :
+    (Conc.run g0 progs evs).eng = Impl.run g0 (Conc.history (Conc.run g0 progs evs)) :=
+  (Conc.inv_run g0 progs evs).eng
+
+/-- that history is an interleaving of the messages of the individual clients … -/
+theorem history_is_merge_of_clients (g0 : S) (progs : Nat → List (Conc.COp S)) (evs : List Conc.Event) :
+    Conc.Merge (fun c => ((Conc.run g0 progs evs).client c).sent) (Conc.history (Conc.run g0 progs evs)) :=
+  (Conc.inv_run g0 progs evs).merge
+
+/-- … and each client's messages are its calls, in program order: accepted ones, then the one in flight,
+then those not yet made -/
+theorem clients_in_program_order (g0 : S) (progs : Nat → List (Conc.COp S)) (evs : List Conc.Event) (c : Nat) :
+    ((Conc.run g0 progs evs).client c).sent.map Conc.Msg.shape
+      ++ (((Conc.run g0 progs evs).client c).pending.toList.map Conc.Msg.shape
+      ++ ((Conc.run g0 progs evs).client c).todo.map Conc.COp.shape) = (progs c).map Conc.COp.shape :=
+  (Conc.inv_run g0 progs evs).order c
+
+/-- the results a client got from its `Update` calls depend only on the history: they are the
+acknowledgements of its own updates in the sequential run of the history -/
+theorem client_replies_from_history (g0 : S) (progs : Nat → List (Conc.COp S)) (evs : List Conc.Event) (c : Nat) :
+    ((Conc.run g0 progs evs).client c).replies = Conc.clientReplies c g0 (Conc.run g0 progs evs).hist := by
+  have := (Conc.inv_run g0 progs evs).replies c
+  simp [Conc.clientReplies, this]
+
+/-- the observations a client holds depend only on the history: its n-th accepted `Observe` is the
+observation numbered by the count of `Observe`s accepted before it; what each of them is told is
+`Impl.log` of the history's run (`interleaving_is_history`), given in closed form by `delivery` -/
+theorem client_handles_from_history (g0 : S) (progs : Nat → List (Conc.COp S)) (evs : List Conc.Event) (c : Nat) :
+    ((Conc.run g0 progs evs).client c).handles = Conc.clientHandles c (Conc.run g0 progs evs).hist := by
+  have := (Conc.inv_run g0 progs evs).handles c
+  simp [Conc.clientHandles, this]
+
+/-- under every schedule the loop is at its `select` whenever it is asked: a caller blocked in its send
+can always be served, and its message becomes the next element of the history -/
+theorem blocked_caller_can_always_be_served (g0 : S) (progs : Nat → List (Conc.COp S)) (evs : List Conc.Event)
+    (c : Nat) (m : Msg S) (hp : ((Conc.run g0 progs evs).client c).pending = some m) :
+    (Conc.run g0 progs (evs ++ [.accept c])).hist = (Conc.run g0 progs evs).hist ++ [(c, m)]
+    ∧ ((Conc.run g0 progs (evs ++ [.accept c])).client c).pending = none := by
+  have hr : (Conc.run g0 progs evs).eng.status = .running := by
+    rw [interleaving_is_history]; exact no_wedge _ _
+  have : Conc.run g0 progs (evs ++ [.accept c]) = Conc.step (Conc.run g0 progs evs) (.accept c) := by
+    simp [Conc.run, Conc.runFrom, List.foldl_append]
+  rw [this]
+  simp only [Conc.step, hr, hp, Conc.setClient, ↓reduceIte, Conc.returned_pending, and_self]
 
 end Arrai.C17.Theorems
